@@ -31,6 +31,8 @@ XML_STRUCT_FAULTS = [
     "wrong_root", "dup_attr", "prolog_encoding", "prolog_doctype", "ns_change",
 ]
 JSON_STRUCT_FAULTS = ["key_delete", "key_rename", "value_junk", "list_wrap", "list_unwrap", "key_add"]
+XSI_TYPES = ["nosuchtype", "xs:nosuch", "item", "dog", "xs:int", "xs:QName", "xs:date", "xs:hexBinary", "xs:base64Binary", "xs:boolean", "xs:duration", "xs:dateTime", "xs:gYear",
+             "xs:decimal", "xs:float", "xs:NMTOKENS", "xs:anyURI", "xs:NOTATION", "xs:time", "xs:unsignedByte", "xs:anyType", "xs:anySimpleType", "xs:string", "xs:language", "xs:IDREFS"]
 JUNK_TEXT = ["", " ", "abc", "-1", "1e999", "NaN", "2020-13-45", "true1", "99999999999999999999999999", "0x10", "p:undeclared", "{", "{urn:x}y", "١٢٣", "1 2 3", "--", "P", "24:00:00", "x" * 300, "\t\n", "1.5.5", "+", "é"]
 JUNK_JSON = [None, True, 0, -1, 1.5, 1e400, "", "abc", [], [[]], [1, [2]], {}, {"a": 1}, {"qname": "q", "type": None, "value": 1}, {"qname": "q", "text": None, "tail": None, "children": [], "attributes": {}}, [None], "9" * 40, {"value": {}}]
 
@@ -211,7 +213,15 @@ def apply_xml_struct_fault(data, f):
             sub = etree.SubElement(el, [el.tag, "intruder", "{urn:nowhere}i"][f["val"] % 3])
             sub.text = "x"
         elif k == "xsi_type_bad":
-            el.set("{%s}type" % XSI, ["nosuchtype", "xs:nosuch", "item", "xs:int", "xs:QName", "xs:date"][f["val"] % 6])
+            if root.nsmap.get("xs") != "http://www.w3.org/2001/XMLSchema":
+                new_root = etree.Element(root.tag, attrib=dict(root.attrib), nsmap=dict(root.nsmap, xs="http://www.w3.org/2001/XMLSchema"))
+                new_root.text = root.text
+                idx = els.index(el)
+                for child in list(root):
+                    new_root.append(child)
+                root = new_root
+                el = _elements(root)[idx]
+            el.set("{%s}type" % XSI, XSI_TYPES[f["val"] % len(XSI_TYPES)])
         elif k == "xsi_type_empty":
             el.set("{%s}type" % XSI, ["", " ", ":"][f["val"] % 3])
         elif k == "xsi_type_unbound":
@@ -470,8 +480,6 @@ def is_instance_of(result, clazz):
     if clazz is None:  # located by the library: any binding model instance (or a list of them)
         if isinstance(result, list):
             return bool(result) and all(is_instance_of(r, None) for r in result)
-        if isinstance(result, DerivedElement):
-            result = result.value
         return dataclasses.is_dataclass(result) and not isinstance(result, type)
 
     if get_origin(clazz) is list:
